@@ -325,9 +325,9 @@ Ltac irrel_tac2 :=
 Ltac good_tac :=
   match goal with
   | HG : Good ?cfg ?c ?s ?S0 |- Good ?cfg ?c ?s _ =>
-    eapply Good_trans; [exact HG|apply irrel_good; [exact (proj1 HG)|irrel_tac2]]
-  | HI : Inv ?s |- Good _ _ ?s _ => apply irrel_good; [exact HI|irrel_tac2]
-  | HG : Good _ _ _ ?s |- Good _ _ ?s _ => apply irrel_good; [exact (proj1 HG)|irrel_tac2]
+    eapply Good_trans; [exact HG|apply irrel_good; [exact (proj1 HG)|solve [irrel_tac2]]]
+  | HI : Inv ?s |- Good _ _ ?s _ => apply irrel_good; [exact HI|solve [irrel_tac2]]
+  | HG : Good _ _ _ ?s |- Good _ _ ?s _ => apply irrel_good; [exact (proj1 HG)|solve [irrel_tac2]]
   end.
 
 Ltac post_auto :=
@@ -438,7 +438,7 @@ Proof.
   assert (Hseq : forall s id, after_id s id -> 1 <= gw_seq_next s <= 65534).
   { intros s id [(_ & E & H)|(_ & E & _)]; rewrite E; lia. }
   induction fuel as [|fuel IH]; intros s id s' r Ha; cbn [skip_predefined].
-  - destruct (get_name (predefined cfg) (gw_client_id s) id) eqn:Hg; intros H; inversion H; subst; clear H.
+  - destruct (get_name (predefined cfg) (gw_client_id s) id) eqn:Hg; intros H; injection H as <- <-.
     + cbn. split; [repeat split|]. split; [apply (Hseq s id Ha)|reflexivity].
     + split; [apply seq_upd_refl|]. split; [apply (Hseq s id Ha)|]. repeat split; try assumption; lia.
   - destruct (get_name (predefined cfg) (gw_client_id s) id) eqn:Hg.
@@ -446,7 +446,7 @@ Proof.
       apply seq_next_spec in Hs; [|exact Hwf|apply (Hseq s id Ha)].
       destruct Hs as (E1 & E2 & Ha1 & Hu1 & Hn1).
       destruct ov.
-      * intros H; inversion H; subst s' r; clear H. cbn. split; [exact Hu1|].
+      * intros H; injection H as <- <-. cbn. split; [exact Hu1|].
         split; [apply (Hseq s1 id1 Ha1)|reflexivity].
       * intros H. apply IH in H; [|exact Ha1]. destruct H as (Hu2 & Hs2 & Hr).
         split; [eapply seq_upd_trans; eassumption|]. split; [exact Hs2|].
@@ -455,8 +455,8 @@ Proof.
         { destruct Ha as [(_ & E & _)|(Ho & _)]; [lia|]. rewrite Ho in E2. discriminate. }
         repeat split; try assumption; try lia; try congruence.
         destruct Hu1 as (_ & _ & _ & _ & Hc). rewrite <- Hc. exact Hg2.
-    + intros H; inversion H; subst; clear H.
-      split; [apply seq_upd_refl|]. split; [apply (Hseq s' id Ha)|]. repeat split; try assumption; lia.
+    + intros H; injection H as <- <-.
+      split; [apply seq_upd_refl|]. split; [apply (Hseq s id Ha)|]. repeat split; try assumption; lia.
 Qed.
 
 Lemma new_topic_id_spec cfg s s' r :
@@ -471,11 +471,11 @@ Lemma new_topic_id_spec cfg s s' r :
 Proof.
   intros Hwf Hr. unfold new_topic_id.
   destruct (gw_no_more_tids s) eqn:Hn.
-  { intros H; inversion H; subst. split; [apply seq_upd_refl|]. split; [exact Hr|exact Hn]. }
+  { intros H; injection H as <- <-. split; [apply seq_upd_refl|]. split; [exact Hr|exact Hn]. }
   destruct (seq_next cfg s) as [[s1 id1] ov] eqn:Hs.
   apply seq_next_spec in Hs; [|exact Hwf|exact Hr]. destruct Hs as (E1 & E2 & Ha1 & Hu1 & Hn1).
   destruct ov.
-  { intros H; inversion H; subst s' r. cbn. split; [exact Hu1|]. split; [|reflexivity].
+  { intros H; injection H as <- <-. cbn. split; [exact Hu1|]. split; [|reflexivity].
     destruct Ha1 as [(_ & E & H1)|(_ & E & _)]; rewrite E; lia. }
   intros H. apply skip_predefined_spec in H; [|exact Hwf|exact Ha1].
   destruct H as (Hu2 & Hs2 & Hres). split; [eapply seq_upd_trans; eassumption|]. split; [exact Hs2|].
@@ -484,4 +484,924 @@ Proof.
   repeat split; try assumption; try congruence; try lia.
   - destruct Ha2 as [(_ & E & H1)|(_ & _ & E)]; lia.
   - intros Ho. destruct Ha2 as [(_ & E & H1)|(Ho' & _)]; [lia|congruence].
+Qed.
+
+Lemma new_topic_id_latched cfg s s' r :
+  new_topic_id cfg s = (s', r) -> gw_no_more_tids s = true -> gw_no_more_tids s' = true.
+Proof. unfold new_topic_id. intros H Hn. rewrite Hn in H. injection H as <- <-. exact Hn. Qed.
+
+Lemma seq_upd_known s s' i n : seq_upd s s' -> known s' i n <-> known s i n.
+Proof. intros (A1 & _ & A3 & _). unfold known. rewrite A1, A3. reflexivity. Qed.
+
+Lemma alloc_spec cfg c s s' r :
+  wf_cfg cfg -> Inv s -> new_topic_id cfg s = (s', r) ->
+  Good cfg c s s' /\ seq_upd s s' /\
+  match r with
+  | Some i => rng s' i /\ (forall n, ~ known s' i n) /\ gw_no_more_tids s' = false /\
+              get_name (predefined cfg) (gw_client_id s) i = None
+  | None => True
+  end.
+Proof.
+  intros Hwf HI Hnew. pose proof (new_topic_id_latched _ _ _ _ Hnew) as Hlat.
+  apply new_topic_id_spec in Hnew; [|exact Hwf|apply HI]. destruct Hnew as (Hu & Hseq & Hr).
+  pose proof Hu as (A1 & A2 & A3 & A4 & A5).
+  assert (Hfresh : forall j n, known s' j n -> rng s' j).
+  { intros j n Hk. apply (seq_upd_known s s') in Hk; [|exact Hu]. apply (inv_rng s HI) in Hk.
+    destruct Hk as [Hk1 Hk2]. split; [exact Hk1|]. intros Hn Ho.
+    destruct r as [i|]; [|congruence]. destruct Hr as (Hn0 & Ho0 & _ & Hle & Hlt & _).
+    specialize (Hk2 Hn0 Ho0). specialize (Hlt Ho). lia. }
+  assert (HI' : Inv s').
+  { constructor.
+    - exact Hseq.
+    - exact Hfresh.
+    - intros j n n' Hk Hk'. apply (seq_upd_known s s') in Hk, Hk'; try exact Hu. eapply inv_fun; eassumption.
+    - rewrite A2, A3. apply HI.
+    - rewrite A4, A3. apply HI. }
+  split; [split; [exact HI'|]|split; [exact Hu|]].
+  - split; [rewrite A3; apply incl_refl|]. split; [exact Hlat|].
+    intros j n Hk. left. apply (seq_upd_known s s'); assumption.
+  - destruct r as [i|]; [|exact I]. destruct Hr as (Hn0 & Ho0 & Hn1 & Hle & Hlt & Hg).
+    split; [|split; [|split; assumption]].
+    + split; [pose proof (inv_seq s HI); lia|]. intros _ Ho. apply Hlt, Ho.
+    + intros n Hk. apply (seq_upd_known s s') in Hk; [|exact Hu]. apply (inv_rng s HI) in Hk.
+      destruct Hk as [_ Hk2]. specialize (Hk2 Hn0 Ho0). lia.
+Qed.
+
+Lemma known_ext s S i name :
+  (gw_handed_out S = gw_handed_out s \/ gw_handed_out S = gw_handed_out s ++ [(i, name)]) ->
+  (gw_registered S = gw_registered s \/ gw_registered S = <[i := name]> (gw_registered s)) ->
+  forall j n, known S j n -> known s j n \/ (j = i /\ n = name).
+Proof.
+  intros HH HR j n [Hk|Hk].
+  - destruct HH as [E|E]; rewrite E in Hk; [left; left; exact Hk|].
+    apply in_app_or in Hk. destruct Hk as [Hk|[Hk|[]]]; [left; left; exact Hk|].
+    inversion Hk. right. split; reflexivity.
+  - destruct HR as [E|E]; rewrite E in Hk; [left; right; exact Hk|].
+    apply lookup_insert_Some in Hk. destruct Hk as [[<- <-]|[_ Hk]]; [right; split; reflexivity|].
+    left. right. exact Hk.
+Qed.
+
+Lemma ext_good cfg c s S i name :
+  Inv s -> rng s i -> (forall n', known s i n' -> n' = name) ->
+  (known s i name \/ (gw_no_more_tids s = false /\ get_name (predefined cfg) c i = None)) ->
+  gw_seq_next S = gw_seq_next s -> gw_seq_overflow S = gw_seq_overflow s ->
+  gw_no_more_tids S = gw_no_more_tids s ->
+  (gw_handed_out S = gw_handed_out s \/ gw_handed_out S = gw_handed_out s ++ [(i, name)]) ->
+  (gw_registered S = gw_registered s \/ gw_registered S = <[i := name]> (gw_registered s)) ->
+  (forall o p, In (o, p) (gw_buffer S) -> In (o, p) (gw_buffer s) \/ stored_ok (gw_handed_out S) p) ->
+  (forall g t, gw_objs S !! g = Some t -> gw_objs s !! g = Some t \/ txn_ok (gw_handed_out S) t) ->
+  Good cfg c s S.
+Proof.
+  intros HI Hr Hu Hnew E1 E2 E3 HH HR Hbuf Hobj.
+  assert (Hinc : incl (gw_handed_out s) (gw_handed_out S)).
+  { destruct HH as [E|E]; rewrite E; [apply incl_refl|apply incl_appl, incl_refl]. }
+  pose proof (known_ext s S i name HH HR) as Hk.
+  split.
+  - apply (inv_ext s S i name); try assumption. intros _. split; assumption.
+  - split; [exact Hinc|]. split; [rewrite E3; auto|].
+    intros j n Hj. destruct (Hk j n Hj) as [Ho|[-> ->]]; [left; exact Ho|exact Hnew].
+Qed.
+
+(* ================================================================== handlers that allocate or announce *)
+
+Lemma find_registered_known s name i :
+  find_registered s name = Some i -> gw_registered s !! i = Some name.
+Proof.
+  unfold find_registered. intros H. apply min_list_in in H.
+  apply elem_of_list_In, elem_of_ids_with_name in H. exact H.
+Qed.
+
+Ltac ext_side :=
+  first [ reflexivity | (left; reflexivity) | (right; reflexivity)
+        | (let Hx := fresh in intros ? ? Hx; left; exact Hx) ].
+
+(* announcing a pair that is already registered *)
+Lemma note_known_good cfg c s i name :
+  Inv s -> gw_registered s !! i = Some name -> Good cfg c s (note_handed s i name).
+Proof.
+  intros HI Hreg. assert (Hk : known s i name) by (right; exact Hreg).
+  apply (ext_good cfg c s _ i name); try ext_side; try exact HI.
+  - eapply inv_rng; eassumption.
+  - intros n' Hk'. eapply inv_fun; eassumption.
+  - left. exact Hk.
+Qed.
+
+Definition register_branch (cfg : gw_cfg) (s : gw_state) (mid : N) (name : bytes) : R :=
+  match register_topic cfg s name with
+  | (s, Some i) => sn_send (note_handed s i name) (Regack i mid RC_ACCEPTED)
+  | (s, None) => sn_send s (Regack 0 mid RC_INVALID_TOPIC_ID)
+  end.
+
+Lemma register_branch_post cfg s mid name :
+  wf_cfg cfg -> Inv s -> Post cfg (gw_client_id s) s (register_branch cfg s mid name).
+Proof.
+  intros Hwf HI. unfold register_branch, register_topic.
+  destruct (find_registered s name) as [i|] eqn:Hf.
+  - apply find_registered_known in Hf. apply post_sn_send; [|exact I].
+    apply note_known_good; assumption.
+  - destruct (new_topic_id cfg s) as [s1 [i|]] eqn:Hn;
+      apply (alloc_spec cfg (gw_client_id s)) in Hn; try assumption; destruct Hn as (HG1 & Hu & Hr).
+    + destruct Hr as (Hrng & Hfresh & Hnm & Hinv).
+      apply post_sn_send; [|exact I]. eapply Good_trans; [exact HG1|].
+      apply (ext_good cfg _ s1 _ i name); try ext_side; try apply HG1; try assumption.
+      * intros n' Hk. exfalso. exact (Hfresh n' Hk).
+      * right. split; assumption.
+    + apply post_sn_send; [exact HG1|exact I].
+Qed.
+
+Lemma handle_subscribe_post cfg s dup qos tit mid tid name :
+  wf_cfg cfg -> Inv s -> Post cfg (gw_client_id s) s (handle_subscribe cfg s dup qos tit mid tid name).
+Proof.
+  intros Hwf HI. unfold handle_subscribe, new_obj. cbv zeta beta.
+  destruct ((2 <? qos) || (mid =? 0)); [post_auto; good_tac|].
+  destruct (tit =? TIT_STRING); [|post_auto; good_tac].
+  destruct (negb (has_wildcard name)); [|post_auto; good_tac].
+  destruct (new_topic_id cfg s) as [s1 [i|]] eqn:Hn;
+    apply (alloc_spec cfg (gw_client_id s)) in Hn; try assumption; destruct Hn as (HG1 & Hu & Hr).
+  - destruct Hr as (Hrng & Hfresh & Hnm & Hinv).
+    assert (HG : Good cfg (gw_client_id s) s (s1 <| gw_registered := <[i := name]> (gw_registered s1) |>)).
+    { eapply Good_trans; [exact HG1|].
+      apply (ext_good cfg _ s1 _ i name); try ext_side; try apply HG1; try assumption.
+      - intros n' Hk. exfalso. exact (Hfresh n' Hk).
+      - right. split; assumption. }
+    post_auto; good_tac.
+  - apply post_sn_send; [exact HG1|exact I].
+Qed.
+
+Lemma handle_broker_publish_post cfg s dup qos retain topic mid0 payload :
+  wf_cfg cfg -> Inv s ->
+  Post cfg (gw_client_id s) s (handle_broker_publish cfg s dup qos retain topic mid0 payload).
+Proof.
+  intros Hwf HI. unfold handle_broker_publish, new_obj.
+  destruct (if is_short_topic topic then _ else _) as [[tid tit]|]; cbv beta iota zeta.
+  - (* a known topic: nothing is announced *)
+    post_auto; try good_tac; (apply bp_proceed_post; [good_tac|cbn; tauto]).
+  - cbn [negb]. rewrite andb_false_r.
+    destruct (if qos =? 0 then _ else _) as [mid|]; [|post_auto; good_tac].
+    destruct (2 <? qos); [post_auto; good_tac|].
+    destruct (new_topic_id cfg s) as [s1 [i|]] eqn:Hn;
+      apply (alloc_spec cfg (gw_client_id s)) in Hn; try assumption; destruct Hn as (HG1 & Hu & Hr).
+    + destruct Hr as (Hrng & Hfresh & Hnm & Hinv).
+      apply bp_proceed_post.
+      * eapply Good_trans; [exact HG1|].
+        apply (ext_good cfg _ s1 _ i topic); try ext_side; try apply HG1; try assumption.
+        -- intros n' Hk. exfalso. exact (Hfresh n' Hk).
+        -- right. split; assumption.
+        -- intros g t Hg. cbn in Hg. apply lookup_insert_Some in Hg.
+           destruct Hg as [[_ <-]|[_ Hg]]; [right|left; exact Hg].
+           cbn. split; [|exact I]. apply in_or_app. right. left. reflexivity.
+      * cbn. split; [|exact I]. apply in_or_app. right. left. reflexivity.
+    + apply post_stop. exact HG1.
+Qed.
+
+Lemma bp_regack_post cfg c s g t rc :
+  Inv s -> txn_ok (gw_handed_out s) t -> Post cfg c s (bp_regack cfg s g t rc).
+Proof.
+  intros HI Ht. unfold bp_regack. cbv zeta. post_auto; try good_tac.
+  cbn in Ht. destruct Ht as [Hin Hpub].
+  apply bp_proceed_post; [|cbn; split; exact Hpub].
+  assert (Hk : known s tid name) by (left; exact Hin).
+  apply (ext_good cfg c s _ tid name); try ext_side; try exact HI.
+  - eapply inv_rng; eassumption.
+  - intros n' Hk'. eapply inv_fun; eassumption.
+  - left. exact Hk.
+Qed.
+
+Lemma get_by_id_obj s mid g t : get_by_id s mid = Some (g, t) -> gw_objs s !! g = Some t.
+Proof.
+  unfold get_by_id. destruct (gw_by_id s !! mid) as [g'|]; [|discriminate].
+  destruct (gw_objs s !! g') as [t'|] eqn:E; [|discriminate]. intros H. inversion H; subst. exact E.
+Qed.
+
+Ltac obj_facts HI :=
+  repeat match goal with
+         | H : get_by_id ?s _ = Some (_, _) |- _ =>
+           apply get_by_id_obj in H; apply (inv_obj s HI) in H; cbn in H
+         end.
+
+Lemma handle_sn_post cfg s p :
+  wf_cfg cfg -> Inv s -> Post cfg (gw_client_id s) s (handle_sn cfg s p).
+Proof.
+  intros Hwf HI. pose proof (Good_refl cfg (gw_client_id s) s HI) as HG0. unfold handle_sn.
+  destruct (negb (packet_legal cfg s p)); [apply post_stop; exact HG0|].
+  destruct_pkt p; try (apply post_stop; exact HG0).
+  - (* Auth *) post_auto; try good_tac. apply connect_auth_post. exact HG0.
+  - (* Connect *) apply handle_connect_post. exact HG0.
+  - (* WillTopic *) post_auto; good_tac.
+  - (* WillMsg *) post_auto; good_tac.
+  - (* Register *) apply (register_branch_post cfg s mid name Hwf HI).
+  - (* Regack *) post_auto; try good_tac. obj_facts HI. apply bp_regack_post; [exact HI|cbn; assumption].
+  - (* Publish *) apply handle_client_publish_post. exact HG0.
+  - (* Puback *) post_auto; try good_tac. obj_facts HI. apply bp_proceed_post; [exact HG0|cbn; tauto].
+  - (* Pubcomp *) post_auto; try good_tac. obj_facts HI. apply bp_proceed_post; [exact HG0|cbn; tauto].
+  - (* Pubrec *) post_auto; try good_tac. obj_facts HI. apply bp_proceed_post; [exact HG0|cbn; tauto].
+  - (* Pubrel *) post_auto; good_tac.
+  - (* Subscribe *) apply handle_subscribe_post; assumption.
+  - (* Unsubscribe *) apply handle_unsubscribe_post. exact HG0.
+  - (* Pingreq *) cbv zeta. destruct (cstate_eqb (gw_st s) Asleep); [|post_auto; good_tac].
+    apply post_andthen.
+    + apply send_all_post; [good_tac|]. intros o p Hin. eapply inv_buf; eassumption.
+    + intros s1 HG1. post_auto; good_tac.
+  - (* Disconnect *) cbv zeta. post_auto; good_tac.
+Qed.
+
+Lemma suback_note_good cfg c s S tid :
+  Good cfg c s S ->
+  Good cfg c s (match gw_registered S !! tid with Some n => note_handed S tid n | None => S end).
+Proof.
+  intros HG. destruct (gw_registered S !! tid) as [n|] eqn:E; [|exact HG].
+  eapply Good_trans; [exact HG|]. apply note_known_good; [apply HG|exact E].
+Qed.
+
+Lemma handle_mq_post cfg s m :
+  wf_cfg cfg -> Inv s -> Post cfg (gw_client_id s) s (handle_mq cfg s m).
+Proof.
+  intros Hwf HI. pose proof (Good_refl cfg (gw_client_id s) s HI) as HG0. unfold handle_mq.
+  destruct m; try (apply post_stop; exact HG0).
+  - (* MqConnack *) post_auto; good_tac.
+  - (* MqPublish *) apply handle_broker_publish_post; assumption.
+  - (* MqPuback *) post_auto; good_tac.
+  - (* MqPubrec *) post_auto; good_tac.
+  - (* MqPubrel *) post_auto; try good_tac. obj_facts HI. apply bp_proceed_post; [exact HG0|cbn; tauto].
+  - (* MqPubcomp *) post_auto; good_tac.
+  - (* MqSuback *) cbv zeta. post_auto; try good_tac.
+    apply suback_note_good. good_tac.
+  - (* MqUnsuback *) post_auto; good_tac.
+  - (* MqPingresp *) post_auto; good_tac.
+Qed.
+
+(* ================================================================== timers, termination, the step *)
+
+Lemma irrel_buf_map s S (f : option N * packet -> option N * packet) :
+  Inv s -> irrel s S ->
+  (forall o p, stored_ok (gw_handed_out s) p -> stored_ok (gw_handed_out s) (snd (f (o, p)))) ->
+  irrel s (S <| gw_buffer := map f (gw_buffer S) |>).
+Proof.
+  intros HI (A1 & A2 & A3 & A4 & A5 & A6 & A7) Hf. unfold irrel. cbn.
+  repeat split; try assumption.
+  intros o p Hin. right. apply in_map_iff in Hin. destruct Hin as [[o' p'] [E Hin]].
+  specialize (Hf o' p'). rewrite E in Hf. cbn in Hf. apply Hf.
+  destruct (A6 o' p' Hin) as [Ho|Hn]; [eapply inv_buf; eassumption|exact Hn].
+Qed.
+
+Lemma post_catch cfg c s s1 o e g :
+  Post cfg c s (s1, o, HEnd e) -> Post cfg c s (ok (finish_obj s1 g) o).
+Proof.
+  intros [HG Ho]. cbn [st_of outs_of fst snd] in *. split.
+  - cbn [ok st_of fst]. eapply Good_trans; [exact HG|]. apply irrel_good; [apply HG|].
+    apply irrel_finish_obj, irrel_refl.
+  - cbn [ok st_of outs_of fst snd].
+    assert (E : gw_handed_out (finish_obj s1 g) = gw_handed_out s1).
+    { pose proof (irrel_finish_obj s1 s1 g (irrel_refl s1)) as (_ & _ & _ & _ & E & _). exact E. }
+    rewrite E. exact Ho.
+Qed.
+
+Lemma fire_post cfg c s k : Inv s -> Post cfg c s (fire cfg s k).
+Proof.
+  intros HI. unfold fire. destruct k as [g|g|g|p|p].
+  - post_auto; good_tac.
+  - post_auto; good_tac.
+  - destruct (gw_objs s !! g) as [t|] eqn:Hobj; [|post_auto; good_tac].
+    destruct t as [| | |mid qos st data snpub n]; try (post_auto; good_tac).
+    apply (inv_obj s HI) in Hobj. cbn in Hobj. destruct Hobj as [Hdata Hsnpub].
+    destruct (retry_count cfg <? n + 1); [post_auto; good_tac|]. cbv zeta.
+    match goal with |- Post _ _ _ (match ?d with RsSn _ => _ | RsAck _ _ => _ end) => set (data' := d) end.
+    assert (Hdata' : match data' with RsSn p => stored_ok (gw_handed_out s) p | RsAck _ _ => True end).
+    { subst data'. destruct data; [apply stored_ok_set_dup; exact Hdata|exact I]. }
+    match goal with |- context [arm ?S0 (TmRetry g) _] => assert (Hir : irrel s S0) end.
+    { apply irrel_buf_map; [exact HI|apply irrel_set_obj; [apply irrel_refl|cbn; split; assumption]|].
+      intros o p Hp. destruct o as [g'|]; [|exact Hp]. destruct (g' =? g); [|exact Hp].
+      cbn. apply stored_ok_set_dup. exact Hp. }
+    clearbody data'. destruct data' as [p|ka m].
+    + match goal with |- context [sn_send_owned ?S0 ?ow p] =>
+        assert (HP : Post cfg c s (sn_send_owned S0 ow p));
+          [|destruct (sn_send_owned S0 ow p) as [[s1 o] [|e]]; [exact HP|apply (post_catch _ _ _ _ _ e); exact HP]]
+      end.
+      apply post_sn_send_owned; [|exact Hdata'].
+      apply irrel_good; [exact HI|]. apply irrel_arm. exact Hir.
+    + apply post_mq_send. apply irrel_good; [exact HI|]. apply irrel_arm. exact Hir.
+  - post_auto; good_tac.
+  - post_auto; good_tac.
+Qed.
+
+Definition Post2 (cfg : gw_cfg) (c : bytes) (s : gw_state) (x : gw_state * list gw_out) : Prop :=
+  Good cfg c s (fst x) /\ outs_ok (gw_handed_out (fst x)) (snd x).
+
+Lemma disconnect_dg_ok h : dg_ok h (pack (Disconnect 0)).
+Proof.
+  intros tid m nm Hr. apply pack_ptype in Hr; [discriminate Hr|exact I|].
+  vm_compute. discriminate.
+Qed.
+
+Lemma begin_end_post cfg c s S e a b :
+  Good cfg c s S -> Post2 cfg c s (begin_end S e a b).
+Proof.
+  intros HG. unfold begin_end, Post2. cbn [fst snd]. split; [good_tac|].
+  intros t dg [Hin|Hin]; [discriminate Hin|].
+  destruct (gw_st S); cbn in Hin; try contradiction; destruct Hin as [Hin|[]];
+    inversion Hin; apply disconnect_dg_ok.
+Qed.
+
+Lemma post2_trans cfg c s s1 o1 x :
+  Good cfg c s s1 -> outs_ok (gw_handed_out s1) o1 -> Post2 cfg c s1 x ->
+  Post2 cfg c s (fst x, o1 ++ snd x).
+Proof.
+  intros HG Ho [HG2 Ho2]. split; cbn [fst snd].
+  - eapply Good_trans; eassumption.
+  - apply outs_ok_app; [|exact Ho2]. eapply outs_ok_mono; [|exact Ho]. apply HG2.
+Qed.
+
+Lemma finish_r_post cfg c s r a b : Post cfg c s r -> Post2 cfg c s (finish_r r a b).
+Proof.
+  intros [HG Ho]. destruct r as [[s1 o] [|e]]; cbn [finish_r st_of outs_of fst snd] in *.
+  - split; assumption.
+  - pose proof (begin_end_post cfg c s1 s1 e a b (Good_refl _ _ _ (proj1 HG))) as HB.
+    pose proof (post2_trans cfg c s s1 o _ HG Ho HB) as HT.
+    destruct (begin_end s1 e a b) as [s2 o2]. exact HT.
+Qed.
+
+Lemma run_timers_post cfg c t fuel : forall s, Inv s -> Post2 cfg c s (run_timers fuel cfg s t).
+Proof.
+  induction fuel as [|fuel IH]; intros s HI; cbn [run_timers].
+  - split; [apply Good_refl, HI|apply outs_ok_nil].
+  - destruct (gw_ending s) as [te|].
+    + destruct (te <=? t).
+      * split; cbn [fst snd]; [good_tac|]. intros t' dg [Hin|[]]. discriminate Hin.
+      * split; [apply Good_refl, HI|apply outs_ok_nil].
+    + destruct (min_timer (gw_timers s)) as [tm|]; [|split; [apply Good_refl, HI|apply outs_ok_nil]].
+      destruct (tm_at tm <=? t); [|split; [apply Good_refl, HI|apply outs_ok_nil]].
+      match goal with |- context [fire cfg ?S0 _] => assert (HG0 : Good cfg c s S0) by good_tac; set (s0 := S0) in * end.
+      pose proof (finish_r_post cfg c s0 _ false false (fire_post cfg c s0 (tm_kind tm) (proj1 HG0))) as HF.
+      destruct (finish_r (fire cfg s0 (tm_kind tm)) false false) as [s1 o1].
+      destruct HF as [HG1 Ho1]. cbn [fst snd] in *.
+      pose proof (IH s1 (proj1 HG1)) as HR.
+      pose proof (post2_trans cfg c s s1 o1 _ (Good_trans _ _ _ _ _ HG0 HG1) Ho1 HR) as HT.
+      destruct (run_timers fuel cfg s1 t) as [s2 o2]. exact HT.
+Qed.
+
+Theorem gw_step_post cfg s ev :
+  wf_cfg cfg -> Inv s -> Post2 cfg (gw_client_id s) s (gw_step cfg s ev).
+Proof.
+  intros Hwf HI. pose proof (Good_refl cfg (gw_client_id s) s HI) as HG0.
+  assert (Hnil : Post2 cfg (gw_client_id s) s (s, [])) by (split; [exact HG0|apply outs_ok_nil]).
+  unfold gw_step. destruct (gw_ended s); [exact Hnil|].
+  destruct ev as [dg|m| | |d|].
+  - destruct (gw_ending s); [exact Hnil|]. cbv zeta.
+    assert (HG : Good cfg (gw_client_id s) s (s <| gw_last_sn := gw_now s |>)) by good_tac.
+    destruct (read_dgram dg) as [p|e|ps]; apply finish_r_post.
+    + eapply post_trans; [exact HG|]. apply (handle_sn_post cfg _ p Hwf (proj1 HG)).
+    + apply post_stop. exact HG.
+    + apply post_stop. exact HG.
+  - destruct (gw_ending s); [exact Hnil|]. cbv zeta.
+    assert (HG : Good cfg (gw_client_id s) s (s <| gw_last_mq := gw_now s |>)) by good_tac.
+    apply finish_r_post. eapply post_trans; [exact HG|]. apply (handle_mq_post cfg _ m Hwf (proj1 HG)).
+  - destruct (gw_ending s); [exact Hnil|]. apply finish_r_post, post_stop. good_tac.
+  - destruct (gw_ending s); [exact Hnil|]. apply finish_r_post, post_stop. exact HG0.
+  - cbv zeta. pose proof (run_timers_post cfg (gw_client_id s) (gw_now s + d) (advance_fuel cfg s d) s HI) as HR.
+    destruct (run_timers (advance_fuel cfg s d) cfg s (gw_now s + d)) as [s1 o1]. destruct HR as [HG1 Ho1].
+    cbn [fst snd] in *. destruct (gw_ended s1); split; cbn [fst snd]; try assumption.
+    good_tac.
+  - destruct (gw_ending s); [exact Hnil|]. apply finish_r_post, post_stop. exact HG0.
+Qed.
+
+Lemma inv_init cfg : wf_cfg cfg -> Inv (init_state cfg).
+Proof.
+  intros (_ & Hmin & _). constructor; cbn.
+  - rewrite Hmin. lia.
+  - intros i n [[]|H]. change (gw_registered (init_state cfg)) with (∅ : Nmap bytes) in H.
+    rewrite lookup_empty in H. discriminate H.
+  - intros i n n' [[]|H]. change (gw_registered (init_state cfg)) with (∅ : Nmap bytes) in H.
+    rewrite lookup_empty in H. discriminate H.
+  - intros o p [].
+  - intros g t H. rewrite lookup_empty in H. discriminate H.
+Qed.
+
+Theorem reach_inv cfg s : wf_cfg cfg -> reach cfg s -> Inv s.
+Proof.
+  intros Hwf Hr. induction Hr as [|s ev Hr IH Hev].
+  - apply inv_init, Hwf.
+  - apply (gw_step_post cfg s ev Hwf IH).
+Qed.
+
+(* ================================================================== what the checker reads off the outputs *)
+
+Lemma in_sns_obs os dg : In dg (sns (obs_of_outs os)) <-> exists t, In (OutSn t dg) os.
+Proof.
+  unfold sns, obs_of_outs. rewrite in_bind_iff. split.
+  - intros [o [Ho Hdg]]. apply in_bind_iff in Ho. destruct Ho as [go [Hgo Ho]].
+    destruct go as [t dg'|t m|t c|t]; cbn in Ho; try contradiction; destruct Ho as [<-|[]]; cbn in Hdg;
+      try contradiction. destruct Hdg as [<-|[]]. exists t. exact Hgo.
+  - intros [t Hin]. exists (ObSn t dg). split; [|left; reflexivity].
+    apply in_bind_iff. exists (OutSn t dg). split; [exact Hin|left; reflexivity].
+Qed.
+
+Lemma in_sn_pkts os q :
+  In q (sn_pkts (obs_of_outs os)) -> exists t dg, In (OutSn t dg) os /\ read_dgram dg = Ok q.
+Proof.
+  unfold sn_pkts. rewrite in_bind_iff. intros [dg [Hdg Hq]].
+  apply in_sns_obs in Hdg. destruct Hdg as [t Hin].
+  destruct (read_dgram dg) as [p|e|ps] eqn:Hr; cbn in Hq; try contradiction.
+  destruct Hq as [<-|[]]. exists t, dg. split; assumption.
+Qed.
+
+Lemma sn_send_owned_out S o p t dg : In (OutSn t dg) (outs_of (sn_send_owned S o p)) -> dg = pack p.
+Proof.
+  unfold sn_send_owned. destruct (gw_st S); try destruct (len (pack p) <=? MaxPacketLen); cbn;
+    intros H; try contradiction; destruct H as [H|[]]; inversion H; reflexivity.
+Qed.
+
+Lemma sn_send_owned_handed S o p : gw_handed_out (st_of (sn_send_owned S o p)) = gw_handed_out S.
+Proof.
+  unfold sn_send_owned. destruct (gw_st S); try destruct (len (pack p) <=? MaxPacketLen); reflexivity.
+Qed.
+
+Lemma finish_r_outs r a b t dg :
+  In (OutSn t dg) (snd (finish_r r a b)) -> In (OutSn t dg) (outs_of r) \/ dg = pack (Disconnect 0).
+Proof.
+  destruct r as [[s o] [|e]]; cbn [finish_r outs_of fst snd]; [left; assumption|].
+  unfold begin_end. cbn [fst snd]. intros H. apply in_app_or in H. destruct H as [H|H]; [left; exact H|].
+  right. destruct H as [H|H]; [discriminate H|].
+  destruct (gw_st s); cbn in H; try contradiction; destruct H as [H|[]]; inversion H; reflexivity.
+Qed.
+
+Lemma finish_r_handed r a b : gw_handed_out (fst (finish_r r a b)) = gw_handed_out (st_of r).
+Proof. destruct r as [[s o] [|e]]; reflexivity. Qed.
+
+Lemma finish_obj_registered s g : gw_registered (finish_obj s g) = gw_registered s.
+Proof. pose proof (irrel_finish_obj s s g (irrel_refl s)) as (E & _). exact E. Qed.
+
+Lemma finish_obj_handed s g : gw_handed_out (finish_obj s g) = gw_handed_out s.
+Proof. pose proof (irrel_finish_obj s s g (irrel_refl s)) as (_ & _ & _ & _ & E & _). exact E. Qed.
+
+Lemma not_regack_disconnect tid m rc : read_dgram (pack (Disconnect 0)) <> Ok (Regack tid m rc).
+Proof. intros Hr. apply pack_ptype in Hr; [discriminate Hr|exact I|]. vm_compute. discriminate. Qed.
+
+Lemma not_suback_disconnect q tid m rc : read_dgram (pack (Disconnect 0)) <> Ok (Suback q tid m rc).
+Proof. intros Hr. apply pack_ptype in Hr; [discriminate Hr|exact I|]. vm_compute. discriminate. Qed.
+
+(* the REGACKs of the step that handles the client's REGISTER *)
+Lemma regack_told cfg s dg0 x mid name :
+  gw_ended s = false -> gw_ending s = None -> read_dgram dg0 = Ok (Register x mid name) ->
+  Inv (fst (gw_step cfg s (EvSn dg0))) ->
+  forall t dg tid m rc,
+    In (OutSn t dg) (snd (gw_step cfg s (EvSn dg0))) -> read_dgram dg = Ok (Regack tid m rc) -> rc = 0 ->
+    In (tid, name) (gw_handed_out (fst (gw_step cfg s (EvSn dg0)))).
+Proof.
+  intros He Hg Hr. unfold gw_step. rewrite He, Hg, Hr. cbv zeta.
+  set (s0 := s <| gw_last_sn := gw_now s |>). intros HI' t dg tid m rc Hin Hdg Hrc.
+  rewrite finish_r_handed in *. apply finish_r_outs in Hin.
+  destruct Hin as [Hin| ->]; [|exfalso; exact (not_regack_disconnect _ _ _ Hdg)].
+  unfold handle_sn in *. destruct (negb (packet_legal cfg s0 (Register x mid name))); [destruct Hin|].
+  fold (register_branch cfg s0 mid name) in *. unfold register_branch in *.
+  destruct (register_topic cfg s0 name) as [s1 [i|]].
+  - apply sn_send_owned_out in Hin. subst dg. rewrite read_regack in Hdg. inversion Hdg; subst.
+    unfold sn_send in *. rewrite sn_send_owned_handed in *.
+    assert (Hh : In (i, name) (gw_handed_out (note_handed s1 i name))).
+    { cbn. apply in_or_app. right. left. reflexivity. }
+    assert (Hk : rng (fst (finish_r (sn_send_owned (note_handed s1 i name) None (Regack i mid RC_ACCEPTED)) true false)) i).
+    { apply (inv_rng _ HI' i name). left. rewrite finish_r_handed, sn_send_owned_handed. exact Hh. }
+    destruct Hk as [Hk _]. rewrite N.mod_small by lia. exact Hh.
+  - apply sn_send_owned_out in Hin. subst dg. rewrite read_regack in Hdg. inversion Hdg; subst. discriminate.
+Qed.
+
+(* the SUBACKs of the step that handles the broker's SUBACK *)
+Lemma suback_told cfg s mid codes g m0 tid0 name :
+  gw_ended s = false -> gw_ending s = None ->
+  get_by_id s mid = Some (g, TxSubscribe m0 tid0) -> gw_registered s !! tid0 = Some name -> Inv s ->
+  forall t dg q tid m rc,
+    In (OutSn t dg) (snd (gw_step cfg s (EvMq (MqSuback mid codes)))) ->
+    read_dgram dg = Ok (Suback q tid m rc) -> rc = 0 ->
+    In (tid, name) (gw_handed_out (fst (gw_step cfg s (EvMq (MqSuback mid codes))))).
+Proof.
+  intros He Hg Hget Hreg HI. unfold gw_step. rewrite He, Hg. cbv zeta.
+  set (s0 := s <| gw_last_mq := gw_now s |>). intros t dg q tid m rc Hin Hdg Hrc.
+  rewrite finish_r_handed. apply finish_r_outs in Hin.
+  destruct Hin as [Hin| ->]; [|exfalso; exact (not_suback_disconnect _ _ _ _ Hdg)].
+  unfold handle_mq in *. change (get_by_id s0 mid) with (get_by_id s mid) in *. rewrite Hget in *.
+  assert (Hk : tid0 < 65536).
+  { assert (Hk : known s tid0 name) by (right; exact Hreg). apply (inv_rng s HI) in Hk. destruct Hk as [Hk _]. lia. }
+  destruct codes as [|c [|c' codes]]; try (destruct Hin).
+  cbv zeta in *. destruct (c <=? 2).
+  - rewrite finish_obj_registered in *. change (gw_registered s0) with (gw_registered s) in *.
+    rewrite Hreg in *. apply sn_send_owned_out in Hin. subst dg.
+    rewrite read_suback in Hdg. inversion Hdg; subst.
+    unfold sn_send. rewrite sn_send_owned_handed. rewrite N.mod_small by exact Hk.
+    cbn. apply in_or_app. right. left. reflexivity.
+  - apply sn_send_owned_out in Hin. subst dg. rewrite read_suback in Hdg. inversion Hdg; subst. discriminate.
+Qed.
+
+(* ================================================================== C04 *)
+
+Lemma running_true s : running s = true -> gw_ended s = false /\ gw_ending s = None.
+Proof.
+  unfold running. intros H. apply andb_true_iff in H. destruct H as [H1 H2].
+  apply negb_true_iff in H1. split; [exact H1|]. destruct (gw_ending s); [discriminate|reflexivity].
+Qed.
+
+Lemma ev_packet_some ev p : ev_packet ev = Some p -> exists dg, ev = EvSn dg /\ read_dgram dg = Ok p.
+Proof.
+  destruct ev as [dg|m| | |d|]; cbn; try (intros H; discriminate H).
+  destruct (read_dgram dg) as [p'|e|ps] eqn:Hr; try (intros H; discriminate H). intros H. inversion H; subst.
+  exists dg. split; [reflexivity|exact Hr].
+Qed.
+
+(* every pair the checker extracts from the model's outputs is on the announced list afterwards *)
+Lemma handed_in_post cfg s ev :
+  wf_cfg cfg -> Inv s -> running s = true ->
+  forall e, In e (handed_in_step cfg s ev (obs_of_outs (snd (gw_step cfg s ev)))) ->
+            In e (gw_handed_out (fst (gw_step cfg s ev))).
+Proof.
+  intros Hwf HI Hrun e. apply running_true in Hrun. destruct Hrun as [He Hg].
+  pose proof (gw_step_post cfg s ev Hwf HI) as [[HI' Hle] Houts].
+  unfold handed_in_step. intros Hin. apply in_app_or in Hin. destruct Hin as [Hin|Hin].
+  { apply in_bind_iff in Hin. destruct Hin as [p [Hp Hin]].
+    destruct p; cbn in Hin; try contradiction. destruct Hin as [<-|[]].
+    apply in_sn_pkts in Hp. destruct Hp as (t & dg & Hout & Hr).
+    eapply Houts; eassumption. }
+  apply in_app_or in Hin. destruct Hin as [Hin|Hin].
+  { destruct (ev_packet ev) as [p0|] eqn:Hev; [|destruct Hin].
+    destruct p0; try (destruct Hin).
+    apply ev_packet_some in Hev. destruct Hev as (dg0 & -> & Hr0).
+    apply in_bind_iff in Hin. destruct Hin as [p [Hp Hin]].
+    destruct p; cbn in Hin; try contradiction.
+    match type of Hin with In _ (if ?c then _ else _) => destruct c eqn:Hc end; [|destruct Hin].
+    destruct Hin as [<-|[]]. apply andb_true_iff in Hc. destruct Hc as [_ Hc]. apply N.eqb_eq in Hc.
+    apply in_sn_pkts in Hp. destruct Hp as (t & dg & Hout & Hr).
+    eapply regack_told; eassumption. }
+  destruct ev as [dg|m| | |d|]; try (destruct Hin).
+  destruct m; try (destruct Hin).
+  destruct (get_by_id s mid) as [[g tx]|] eqn:Hget; [|destruct Hin].
+  destruct tx as [| |m0 tid0|]; try (destruct Hin).
+  destruct (gw_registered s !! tid0) as [name|] eqn:Hreg; [|destruct Hin].
+  apply in_bind_iff in Hin. destruct Hin as [p [Hp Hin]].
+  destruct p; cbn in Hin; try contradiction.
+  match type of Hin with In _ (if ?c then _ else _) => destruct c eqn:Hc end; [|destruct Hin].
+  destruct Hin as [<-|[]]. apply andb_true_iff in Hc. destruct Hc as [Hc _].
+  apply andb_true_iff in Hc. destruct Hc as [_ Hc]. apply N.eqb_eq in Hc.
+  apply in_sn_pkts in Hp. destruct Hp as (t & dg & Hout & Hr).
+  eapply suback_told; eassumption.
+Qed.
+
+(* Extra hypothesis 1 (clause 2): no known topic ID is a predefined topic ID of the session's
+   current client ID.  It holds initially and is preserved by every step that keeps gw_client_id
+   (tids_invisible_step); it can only break when a CONNECT handled in state Disconnected or Active
+   changes the client ID after topic IDs were allocated (which includes IDs allocated for broker
+   PUBLISHes that arrive before the first CONNECT, under the empty client ID). *)
+Definition tids_invisible (cfg : gw_cfg) (s : gw_state) : Prop :=
+  forall i n, known s i n -> get_name (predefined cfg) (gw_client_id s) i = None.
+
+(* Extra hypothesis 2 (clause 4): once the topic IDs are exhausted, every registered pair has been
+   announced.  It excludes a SUBSCRIBE by name whose topic ID was allocated before exhaustion and
+   whose SUBACK has not been relayed yet (or never will be): that ID is in gw_registered only. *)
+Definition announced_when_exhausted (s : gw_state) : Prop :=
+  gw_no_more_tids s = true -> forall i n, gw_registered s !! i = Some n -> In (i, n) (gw_handed_out s).
+
+(* ORIGINAL STATEMENT (false, see the counterexamples at the end of the file):
+   Theorem chk_C04_sound : forall cfg s ev, wf_cfg cfg -> reach cfg s -> wf_event ev ->
+     chk_C04 cfg s ev (obs_of_outs (snd (gw_step cfg s ev))) = []. *)
+Theorem chk_C04_sound_partial : forall cfg s ev, wf_cfg cfg -> reach cfg s -> wf_event ev ->
+  tids_invisible cfg s -> announced_when_exhausted s ->
+  chk_C04 cfg s ev (obs_of_outs (snd (gw_step cfg s ev))) = [].
+Proof.
+  intros cfg s ev Hwf Hreach _ Hvis Hex. pose proof (reach_inv cfg s Hwf Hreach) as HI.
+  unfold chk_C04. destruct (running s) eqn:Hrun; [|reflexivity]. cbn [negb].
+  pose proof (handed_in_post cfg s ev Hwf HI Hrun) as Hhs.
+  pose proof (gw_step_post cfg s ev Hwf HI) as [[HI' (Hinc & Hlat & Hle)] _].
+  set (hs := handed_in_step cfg s ev (obs_of_outs (snd (gw_step cfg s ev)))) in *.
+  set (s' := fst (gw_step cfg s ev)) in *.
+  assert (Hcons : forall h e, incl h (gw_handed_out s') -> In e hs -> consistent_with h (fst e) (snd e) = true).
+  { intros h e Hh He. unfold consistent_with. apply forallb_forall. intros e' He'.
+    destruct (fst e' =? fst e) eqn:E; [|reflexivity]. apply N.eqb_eq in E. cbn [negb orb].
+    apply beq_eq. destruct e as [i n], e' as [i' n']. cbn [fst snd] in *. subst i'.
+    apply (inv_fun s' HI' i); left; [apply Hh, He'|apply Hhs, He]. }
+  assert (E1 : hs ≫= (fun e =>
+     (if (1 <=? fst e) && (fst e <=? 65534) then [] else [1]) ++
+     (match get_name (predefined cfg) (gw_client_id s) (fst e) with None => [] | Some _ => [2] end) ++
+     (if consistent_with (gw_handed_out s) (fst e) (snd e) then [] else [3])) = []).
+  { apply bind_nil_all. intros [i n] He. cbn [fst snd].
+    assert (Hk : known s' i n) by (left; apply Hhs, He).
+    pose proof (inv_rng s' HI' i n Hk) as [Hr _].
+    assert (Hb : (1 <=? i) && (i <=? 65534) = true).
+    { apply andb_true_iff. split; apply N.leb_le; lia. }
+    rewrite Hb.
+    assert (Hn : get_name (predefined cfg) (gw_client_id s) i = None).
+    { destruct (Hle i n Hk) as [Ho|[_ Hn]]; [apply (Hvis i n Ho)|exact Hn]. }
+    rewrite Hn. pose proof (Hcons (gw_handed_out s) (i, n) Hinc He) as Hc. cbn [fst snd] in Hc.
+    rewrite Hc. reflexivity. }
+  rewrite E1. cbn [app].
+  assert (E2 : forallb (fun e => consistent_with hs (fst e) (snd e)) hs = true).
+  { apply forallb_forall. intros e He. apply Hcons; [|exact He]. intros x Hx. apply Hhs, Hx. }
+  rewrite E2. cbn [app].
+  destruct (gw_no_more_tids s) eqn:Hnm; [|reflexivity].
+  assert (E3 : forallb (fun e => existsb (fun h => (fst h =? fst e) && beq (snd h) (snd e)) (gw_handed_out s)) hs = true).
+  { apply forallb_forall. intros [i n] He. cbn [fst snd]. apply existsb_exists. exists (i, n). cbn [fst snd].
+    split; [|rewrite N.eqb_refl, beq_refl; reflexivity].
+    assert (Hk : known s' i n) by (left; apply Hhs, He).
+    destruct (Hle i n Hk) as [[Ho|Ho]|[Hc _]]; [exact Ho|apply (Hex Hnm i n Ho)|discriminate Hc]. }
+  rewrite E3. reflexivity.
+Qed.
+
+(* the first extra hypothesis is preserved by every step that keeps the client ID *)
+Lemma tids_invisible_step cfg s ev :
+  wf_cfg cfg -> reach cfg s -> tids_invisible cfg s ->
+  gw_client_id (fst (gw_step cfg s ev)) = gw_client_id s ->
+  tids_invisible cfg (fst (gw_step cfg s ev)).
+Proof.
+  intros Hwf Hreach Hvis Hc i n Hk. pose proof (reach_inv cfg s Hwf Hreach) as HI.
+  pose proof (gw_step_post cfg s ev Hwf HI) as [[_ (_ & _ & Hle)] _]. rewrite Hc.
+  destruct (Hle i n Hk) as [Ho|[_ Hn]]; [apply (Hvis i n Ho)|exact Hn].
+Qed.
+
+Lemma tids_invisible_init cfg : tids_invisible cfg (init_state cfg).
+Proof.
+  intros i n [[]|H]. change (gw_registered (init_state cfg)) with (∅ : Nmap bytes) in H.
+  rewrite lookup_empty in H. discriminate H.
+Qed.
+
+(* ================================================================== C11: nothing is written to a sleeping client *)
+
+Definition quiet (r : R) : Prop :=
+  gw_st (st_of r) = Asleep /\ forall t dg, ~ In (OutSn t dg) (outs_of r).
+
+Lemma q_ok S : gw_st S = Asleep -> quiet (ok S []).
+Proof. intros H. split; [exact H|intros t dg []]. Qed.
+Lemma q_stop S e : gw_st S = Asleep -> quiet (stop S [] e).
+Proof. intros H. split; [exact H|intros t dg []]. Qed.
+Lemma q_mq_send S m : gw_st S = Asleep -> quiet (mq_send S m).
+Proof. intros H. split; [exact H|intros t dg [E|[]]; discriminate E]. Qed.
+Lemma q_sn_send_owned S o p : gw_st S = Asleep -> quiet (sn_send_owned S o p).
+Proof. intros H. unfold sn_send_owned. rewrite H. split; [exact H|intros t dg []]. Qed.
+Lemma q_andthen r g : quiet r -> (forall s1, gw_st s1 = Asleep -> quiet (g s1)) -> quiet (andthen r g).
+Proof.
+  intros [Hs Ho] Hg. destruct r as [[s1 o1] [|e]]; cbn [andthen st_of outs_of fst snd] in *.
+  - specialize (Hg s1 Hs). destruct (g s1) as [[s2 o2] res]. destruct Hg as [Hs2 Ho2].
+    cbn [st_of outs_of fst snd] in *. split; [exact Hs2|].
+    intros t dg Hin. apply in_app_or in Hin. destruct Hin as [Hin|Hin]; [eapply Ho|eapply Ho2]; eassumption.
+  - split; assumption.
+Qed.
+
+Lemma finish_obj_st s g : gw_st (finish_obj s g) = gw_st s.
+Proof. unfold finish_obj. destruct (gw_objs s !! g) as [t|]; [|reflexivity]. destruct t; reflexivity. Qed.
+
+Lemma seq_next_st cfg s : gw_st (fst (fst (seq_next cfg s))) = gw_st s.
+Proof. unfold seq_next. destruct (gw_seq_next s =? max_tid cfg); reflexivity. Qed.
+
+Lemma skip_predefined_st cfg fuel : forall s id, gw_st (fst (skip_predefined fuel cfg s id)) = gw_st s.
+Proof.
+  induction fuel as [|fuel IH]; intros s id; cbn [skip_predefined];
+    destruct (get_name (predefined cfg) (gw_client_id s) id); try reflexivity.
+  pose proof (seq_next_st cfg s) as Hs. destruct (seq_next cfg s) as [[s1 id1] ov]. cbn [fst] in Hs.
+  destruct ov; [exact Hs|]. rewrite IH. exact Hs.
+Qed.
+
+Lemma new_topic_id_st cfg s : gw_st (fst (new_topic_id cfg s)) = gw_st s.
+Proof.
+  unfold new_topic_id. destruct (gw_no_more_tids s); [reflexivity|].
+  pose proof (seq_next_st cfg s) as Hs. destruct (seq_next cfg s) as [[s1 id1] ov]. cbn [fst] in Hs.
+  destruct ov; [exact Hs|]. rewrite skip_predefined_st. exact Hs.
+Qed.
+
+Ltac q_auto :=
+  repeat match goal with
+         | |- quiet (andthen _ _) => apply q_andthen; [|intros ? ?]
+         | |- quiet (sn_send _ _) => apply q_sn_send_owned
+         | |- quiet (sn_send_owned _ _ _) => apply q_sn_send_owned
+         | |- quiet (mq_send _ _) => apply q_mq_send
+         | |- quiet (ok _ _) => apply q_ok
+         | |- quiet (stop _ _ _) => apply q_stop
+         | |- quiet (match ?x with _ => _ end) => destruct x eqn:?
+         | |- quiet (if ?x then _ else _) => destruct x eqn:?
+         end.
+
+Local Opaque finish_obj.
+
+Ltac st_tac :=
+  repeat (cbn; rewrite ?finish_obj_st);
+  first [ assumption
+        | match goal with |- gw_st (if ?c then _ else _) = _ => destruct c; st_tac end
+        | match goal with |- gw_st (match ?c with _ => _ end) = _ => destruct c; st_tac end ].
+
+Lemma connect_auth_done_q s g mq : gw_st s = Asleep -> quiet (connect_auth_done s g mq).
+Proof. intros H. unfold connect_auth_done. q_auto; st_tac. Qed.
+
+Lemma connect_auth_q s g mq a me da : gw_st s = Asleep -> quiet (connect_auth s g mq a me da).
+Proof.
+  intros H. unfold connect_auth. q_auto; try st_tac. apply connect_auth_done_q. st_tac.
+Qed.
+
+Lemma handle_client_publish_q cfg s dup q r tit tid mid data :
+  gw_st s = Asleep -> quiet (handle_client_publish cfg s dup q r tit tid mid data).
+Proof. intros H. unfold handle_client_publish, new_obj. cbv zeta. q_auto; st_tac. Qed.
+
+Lemma handle_unsubscribe_q cfg s tit mid tid name :
+  gw_st s = Asleep -> quiet (handle_unsubscribe cfg s tit mid tid name).
+Proof. intros H. unfold handle_unsubscribe. q_auto; st_tac. Qed.
+
+Lemma handle_subscribe_q cfg s dup qos tit mid tid name :
+  gw_st s = Asleep -> quiet (handle_subscribe cfg s dup qos tit mid tid name).
+Proof.
+  intros H. unfold handle_subscribe, new_obj. cbv zeta beta.
+  pose proof (new_topic_id_st cfg s) as Hn. destruct (new_topic_id cfg s) as [s1 r]. cbn [fst] in Hn.
+  rewrite H in Hn. q_auto; st_tac.
+Qed.
+
+Lemma register_branch_q cfg s mid name : gw_st s = Asleep -> quiet (register_branch cfg s mid name).
+Proof.
+  intros H. unfold register_branch, register_topic.
+  pose proof (new_topic_id_st cfg s) as Hn. destruct (new_topic_id cfg s) as [s1 r]. cbn [fst] in Hn.
+  rewrite H in Hn. destruct (find_registered s name); [|destruct r]; q_auto; st_tac.
+Qed.
+
+Lemma bp_proceed_q cfg s g mid qos st data snpub :
+  gw_st s = Asleep -> quiet (bp_proceed cfg s g mid qos st data snpub).
+Proof. intros H. unfold bp_proceed. cbv zeta. destruct data; destruct st; q_auto; st_tac. Qed.
+
+Lemma bp_regack_q cfg s g t rc : gw_st s = Asleep -> quiet (bp_regack cfg s g t rc).
+Proof. intros H. unfold bp_regack. cbv zeta. q_auto; try st_tac. apply bp_proceed_q. st_tac. Qed.
+
+Definition wakes (p : packet) : Prop :=
+  match p with Pingreq _ | Connect _ _ _ _ _ | Disconnect _ => True | _ => False end.
+
+Lemma handle_sn_q cfg s p : gw_st s = Asleep -> ~ wakes p -> quiet (handle_sn cfg s p).
+Proof.
+  intros H Hp. unfold handle_sn.
+  destruct (negb (packet_legal cfg s p)); [apply q_stop; exact H|].
+  destruct_pkt p; try (apply q_stop; exact H); try (exfalso; apply Hp; exact I).
+  - q_auto; try st_tac. apply connect_auth_q. exact H.
+  - q_auto; st_tac.
+  - q_auto; st_tac.
+  - apply (register_branch_q cfg s mid name H).
+  - q_auto; try st_tac. apply bp_regack_q. exact H.
+  - apply handle_client_publish_q. exact H.
+  - q_auto; try st_tac; apply bp_proceed_q; exact H.
+  - q_auto; try st_tac; apply bp_proceed_q; exact H.
+  - q_auto; try st_tac; apply bp_proceed_q; exact H.
+  - q_auto; st_tac.
+  - apply handle_subscribe_q. exact H.
+  - apply handle_unsubscribe_q. exact H.
+Qed.
+
+Lemma handle_broker_publish_q cfg s dup qos retain topic mid0 payload :
+  gw_st s = Asleep -> quiet (handle_broker_publish cfg s dup qos retain topic mid0 payload).
+Proof.
+  intros H. unfold handle_broker_publish, new_obj.
+  pose proof (new_topic_id_st cfg s) as Hn. destruct (new_topic_id cfg s) as [s1 r]. cbn [fst] in Hn.
+  rewrite H in Hn.
+  destruct (if is_short_topic topic then _ else _) as [[tid tit]|]; cbv beta iota zeta;
+    q_auto; try st_tac; apply bp_proceed_q; st_tac.
+Qed.
+
+(* Extra hypothesis of clause 1: the step is not the one in which the broker accepts a CONNECT that
+   is still pending.  (A client that re-CONNECTs while Active and then goes to sleep before the
+   broker's CONNACK arrives gets the CONNACK written while the state is Asleep.) *)
+Definition connack_not_due (s : gw_state) (ev : gw_event) : Prop :=
+  match ev with
+  | EvMq (MqConnack _ rc) =>
+    match get_connect s with Some (_, _, CxConnack) => rc <> 0 | _ => True end
+  | _ => True
+  end.
+
+Lemma handle_mq_q cfg s m :
+  gw_st s = Asleep -> connack_not_due s (EvMq m) -> quiet (handle_mq cfg s m).
+Proof.
+  intros H Hc. unfold handle_mq. destruct m; try (apply q_stop; exact H).
+  - cbn [connack_not_due] in Hc. destruct (get_connect s) as [[[g mq] a]|]; [|apply q_ok; exact H].
+    destruct a; cbn [cx_state_eqb negb]; try (apply q_ok; exact H).
+    destruct (rc =? 0) eqn:E; [apply N.eqb_eq in E; contradiction|]. cbn [negb]. q_auto; st_tac.
+  - apply handle_broker_publish_q. exact H.
+  - q_auto; st_tac.
+  - q_auto; st_tac.
+  - q_auto; try st_tac. apply bp_proceed_q. exact H.
+  - q_auto; st_tac.
+  - cbv zeta. q_auto; st_tac.
+  - q_auto; st_tac.
+  - rewrite H. cbn [cstate_eqb]. apply q_ok. exact H.
+Qed.
+
+Lemma fire_q cfg s k : gw_st s = Asleep -> quiet (fire cfg s k).
+Proof.
+  intros H. unfold fire. destruct k as [g|g|g|p|p]; try (q_auto; st_tac).
+  destruct (gw_objs s !! g) as [t|]; [|apply q_ok; exact H].
+  destruct t as [| | |mid qos st data snpub n]; try (apply q_ok; exact H).
+  destruct (retry_count cfg <? n + 1); [apply q_ok; st_tac|]. cbv zeta.
+  destruct data as [p|ka m].
+  - match goal with |- context [sn_send_owned ?S0 ?ow ?p0] =>
+      assert (HQ : quiet (sn_send_owned S0 ow p0)) by (apply q_sn_send_owned; st_tac);
+      destruct (sn_send_owned S0 ow p0) as [[s1 o] [|e]]; [exact HQ|]
+    end.
+    destruct HQ as [Hs Ho]. cbn [st_of outs_of fst snd] in *. split; [|exact Ho].
+    cbn [ok st_of fst]. rewrite finish_obj_st. exact Hs.
+  - apply q_mq_send. st_tac.
+Qed.
+
+Definition quiet2 (x : gw_state * list gw_out) : Prop :=
+  gw_st (fst x) = Asleep /\ forall t dg, ~ In (OutSn t dg) (snd x).
+
+Lemma finish_r_q r a b : quiet r -> quiet2 (finish_r r a b).
+Proof.
+  intros [Hs Ho]. destruct r as [[s1 o] [|e]]; cbn [finish_r st_of outs_of fst snd] in *.
+  - split; assumption.
+  - unfold begin_end. rewrite Hs. cbn [fst snd]. split; [exact Hs|].
+    intros t dg Hin. apply in_app_or in Hin. destruct Hin as [Hin|[Hin|[]]]; [eapply Ho; exact Hin|discriminate Hin].
+Qed.
+
+Lemma run_timers_q cfg t fuel : forall s, gw_st s = Asleep -> quiet2 (run_timers fuel cfg s t).
+Proof.
+  induction fuel as [|fuel IH]; intros s H; cbn [run_timers].
+  - split; [exact H|intros t' dg []].
+  - destruct (gw_ending s) as [te|].
+    + destruct (te <=? t); (split; [exact H|]); intros t' dg Hin; [|destruct Hin].
+      destruct Hin as [Hin|[]]. discriminate Hin.
+    + destruct (min_timer (gw_timers s)) as [tm|]; [|split; [exact H|intros t' dg []]].
+      destruct (tm_at tm <=? t); [|split; [exact H|intros t' dg []]].
+      match goal with |- context [fire cfg ?S0 _] =>
+        pose proof (finish_r_q _ false false (fire_q cfg S0 (tm_kind tm) H)) as HF;
+        destruct (finish_r (fire cfg S0 (tm_kind tm)) false false) as [s1 o1]
+      end.
+      destruct HF as [Hs1 Ho1]. cbn [fst snd] in *.
+      pose proof (IH s1 Hs1) as HR. destruct (run_timers fuel cfg s1 t) as [s2 o2].
+      destruct HR as [Hs2 Ho2]. cbn [fst snd] in *. split; [exact Hs2|].
+      intros t' dg Hin. apply in_app_or in Hin. destruct Hin as [Hin|Hin]; [eapply Ho1|eapply Ho2]; eassumption.
+Qed.
+
+Lemma gw_step_q cfg s ev :
+  gw_st s = Asleep -> connack_not_due s ev ->
+  match ev_packet ev with Some p => ~ wakes p | None => True end ->
+  forall t dg, ~ In (OutSn t dg) (snd (gw_step cfg s ev)).
+Proof.
+  intros H Hc Hp. unfold gw_step. destruct (gw_ended s); [intros t dg []|].
+  destruct ev as [dg0|m| | |d|].
+  - destruct (gw_ending s); [intros t dg []|]. cbv zeta. cbn [ev_packet] in Hp.
+    destruct (read_dgram dg0) as [p|e|ps]; apply finish_r_q.
+    + apply handle_sn_q; [exact H|exact Hp].
+    + apply q_stop. exact H.
+    + apply q_stop. exact H.
+  - destruct (gw_ending s); [intros t dg []|]. cbv zeta. apply finish_r_q.
+    apply handle_mq_q; [exact H|exact Hc].
+  - destruct (gw_ending s); [intros t dg []|]. apply finish_r_q, q_stop. exact H.
+  - destruct (gw_ending s); [intros t dg []|]. apply finish_r_q, q_stop. exact H.
+  - cbv zeta. pose proof (run_timers_q cfg (gw_now s + d) (advance_fuel cfg s d) s H) as [_ HR].
+    destruct (run_timers (advance_fuel cfg s d) cfg s (gw_now s + d)) as [s1 o1]. exact HR.
+  - destruct (gw_ending s); [intros t dg []|]. apply finish_r_q, q_stop. exact H.
+Qed.
+
+Local Transparent finish_obj.
+
+(* the flush of the sleep buffer when every buffered packet passes the size check of snSend *)
+Lemma send_all_awake ps : forall S,
+  gw_st S = Awake -> (forall e, In e ps -> len (pack (snd e)) <= MaxPacketLen) ->
+  send_all S ps = (S, map (fun e => OutSn (gw_now S) (pack (snd e))) ps, HOk).
+Proof.
+  induction ps as [|[o p] ps IH]; intros S Hst Hsz; cbn [send_all map]; [reflexivity|].
+  unfold sn_send, sn_send_owned. rewrite Hst.
+  assert (E : (len (pack p) <=? MaxPacketLen) = true).
+  { apply N.leb_le. apply (Hsz (o, p)). left. reflexivity. }
+  rewrite E. cbn [andthen ok]. rewrite IH; [reflexivity|exact Hst|].
+  intros e He. apply Hsz. right. exact He.
+Qed.
+
+Lemma sns_map_outsn {A} (f : A -> bytes) (t : N) (l : list A) (rest : list gw_out) :
+  sns (obs_of_outs (map (fun e => OutSn t (f e)) l ++ rest)) = map f l ++ sns (obs_of_outs rest).
+Proof. induction l as [|x l IH]; [reflexivity|]. cbn. f_equal. exact IH. Qed.
+
+Lemma no_outsn_sns os : (forall t dg, ~ In (OutSn t dg) os) -> sns (obs_of_outs os) = [].
+Proof.
+  intros H. destruct (sns (obs_of_outs os)) as [|dg l] eqn:E; [reflexivity|].
+  assert (Hin : In dg (sns (obs_of_outs os))) by (rewrite E; left; reflexivity).
+  apply in_sns_obs in Hin. destruct Hin as [t Hin]. exfalso. exact (H t dg Hin).
+Qed.
+
+(* Extra hypothesis of clause 2: every buffered packet passes the size check of snSend.  (A broker
+   PUBLISH with a short topic name and a payload of more than about 8 KiB is buffered as it is while
+   the client sleeps; wf_mq does not bound the payload.  The flush then stops at that packet with
+   "packet too long" and ends the session.) *)
+Definition buffer_small (s : gw_state) : Prop :=
+  forall e, In e (gw_buffer s) -> len (pack (snd e)) <= MaxPacketLen.
+
+(* ORIGINAL STATEMENT (false, see the counterexamples at the end of the file):
+   Theorem chk_C11_sound : forall cfg s ev, wf_cfg cfg -> reach cfg s -> wf_event ev ->
+     chk_C11 cfg s ev (obs_of_outs (snd (gw_step cfg s ev))) = [].
+   The partial version needs neither reachability nor well-formedness. *)
+Theorem chk_C11_sound_partial : forall cfg s ev, wf_cfg cfg -> reach cfg s -> wf_event ev ->
+  buffer_small s -> connack_not_due s ev ->
+  chk_C11 cfg s ev (obs_of_outs (snd (gw_step cfg s ev))) = [].
+Proof.
+  intros cfg s ev _ _ _ Hsmall Hc. unfold chk_C11.
+  destruct (running s) eqn:Hrun; [|reflexivity].
+  destruct (cstate_eqb (gw_st s) Asleep) eqn:Hst; [|reflexivity]. cbn [negb orb].
+  assert (Hs : gw_st s = Asleep) by (destruct (gw_st s); try discriminate Hst; reflexivity).
+  apply running_true in Hrun. destruct Hrun as [He Hg].
+  assert (Hq : match ev_packet ev with Some p => ~ wakes p | None => True end ->
+               (if len (sns (obs_of_outs (snd (gw_step cfg s ev)))) =? 0 then [] else [1]) = @nil N).
+  { intros Hp. rewrite (no_outsn_sns _ (gw_step_q cfg s ev Hs Hc Hp)). reflexivity. }
+  destruct (ev_packet ev) as [p|] eqn:Hev; [|apply Hq; exact I].
+  destruct p; try (apply Hq; intros []); try reflexivity.
+  (* Pingreq *)
+  apply ev_packet_some in Hev. destruct Hev as (dg0 & -> & Hr0).
+  unfold gw_step. rewrite He, Hg, Hr0. cbv zeta.
+  unfold handle_sn, packet_legal. cbn [gw_st set]. rewrite Hs. cbn [negb cstate_eqb].
+  rewrite send_all_awake; [|reflexivity|exact Hsmall].
+  cbn [andthen]. unfold sn_send, sn_send_owned. cbn [gw_st set].
+  change (len (pack Pingresp) <=? MaxPacketLen) with true. cbn [ok finish_r snd].
+  Show. rewrite sns_map_outsn. cbn [app]. rewrite beql_refl. reflexivity.
 Qed.
